@@ -69,6 +69,8 @@ def main():
         os.makedirs(dst)
         for f in ("patch.diff", "demo.py"):
             shutil.copy(os.path.join(src, f), os.path.join(dst, f))
+        if os.environ.get("SEED_ROUND"):
+            meta["round"] = int(os.environ["SEED_ROUND"])
         meta["confirmed"] = {
             "base_commit": head,
             "ran": ["git worktree add --detach <tmp> HEAD", "demo.py <tmp>  (exit %d, unmodified)" % rc0,
